@@ -293,3 +293,8 @@ Fixpoint run (y : sys) (es : list event) : sys * list out :=
 (* RunClientUpdater entered after start-up read [cfg] from the main file of directory [d] *)
 Definition init_sys (cfg : config) (d : fs entry) : sys :=
   {| objs := []; texts := []; armed := true; v_config := cfg; v_over := []; disk := d |}.
+
+(* dastard is killed and started again on directory f: the start-up sequence, then a fresh updater *)
+Definition reboot (f : fs entry) : sys :=
+  let '(f1, c) := startup f in
+  init_sys (match c with Some c => c | None => [] end) f1.
